@@ -413,6 +413,14 @@ func (jointr *jointRowReader) tryHashProbe(
 	if !jointr.hashJoinChecked[i] {
 		jointr.hashJoinChecked[i] = true
 
+		// The plan is extracted from the condition reduced with the FIRST outer
+		// row and then reused for every outer row: conjuncts that read outer
+		// columns other than through a plain `outer.col = inner.col` pair would
+		// be frozen to that first row's values.
+		if !hashJoinCondStable(jspec.cond, innerAlias) {
+			return false, nil, nil, nil
+		}
+
 		_, innerSels, innerResidual, planOk := extractEquiJoinPlan(reducedWhere, innerAlias)
 		if !planOk {
 			return false, nil, nil, nil
